@@ -101,3 +101,74 @@ func c11Final(h *vHist) {
 		}
 	}
 }
+
+var _ = vReg("C11_DeepCost", C11_DeepCost)
+
+// C11_DeepCost: the read-cost bounds on a tree deep enough for the two coefficients to matter (a cost of
+// 12h stays below 10h+10 up to height 5). 33 ordered symbolic one-byte keys inserted in ascending order give
+// height 6; committed, reopened with nothing cached; every present key and one absent key in a chosen gap.
+func C11_DeepCost() {
+	n := 33
+	gap := vChoice("gap", n+1) // the absent key lies before key #gap (gap == n: after the last key)
+	all := make([][]byte, 0, n+1)
+	keys := make([][]byte, n)
+	var absent []byte
+	for i := 0; i <= n; i++ {
+		if i == gap {
+			absent = vBytes("absent", 1)
+			all = append(all, absent)
+		}
+		if i < n {
+			keys[i] = vBytes("k", 1)
+			all = append(all, keys[i])
+		}
+	}
+	vOrdered(all)
+	db := newVDB()
+	tree := NewMutableTree(db, 0, true, NewNopLogger())
+	for i := 0; i < n; i++ {
+		_, err := tree.Set(keys[i], []byte{byte(i)})
+		vAssert(err == nil, "c11d:set-err")
+	}
+	_, _, err := tree.SaveVersion()
+	vAssert(err == nil, "c11d:save-err")
+	t2 := NewMutableTree(db, 0, true, NewNopLogger())
+	_, err = t2.Load()
+	vAssert(err == nil, "c11d:load-err")
+	it, err := t2.GetImmutable(1)
+	vAssert(err == nil, "c11d:getimmutable")
+	hgt := int(it.Height())
+	vAssert(hgt >= 6, "c11d:height-at-least-6")
+	vAssert(it.Size() == int64(n), "c11d:size")
+	for i := 0; i < n; i++ {
+		r0 := db.reads
+		idx, val, err := it.GetWithIndex(keys[i])
+		vAssert(err == nil && val != nil && idx == int64(i), "c11d:getwithindex")
+		vAssert(db.reads-r0 <= 2*hgt+2, "c11d:reads-get<=2h+2")
+		r0 = db.reads
+		has, err := it.Has(keys[i])
+		vAssert(err == nil && has, "c11d:has")
+		vAssert(db.reads-r0 <= 2*hgt+2, "c11d:reads-has<=2h+2")
+		r0 = db.reads
+		k, _, err := it.GetByIndex(int64(i))
+		vAssert(err == nil && vConcreteBool(vEqBytes(k, keys[i])), "c11d:getbyindex")
+		vAssert(db.reads-r0 <= 2*hgt+2, "c11d:reads-getbyindex<=2h+2")
+		r0 = db.reads
+		p, err := it.GetProof(keys[i])
+		vAssert(err == nil && p != nil && p.GetExist() != nil, "c11d:membership-proof")
+		vAssert(db.reads-r0 <= 10*hgt+10, "c11d:reads-membership-proof<=10h+10")
+	}
+	r0 := db.reads
+	idx, val, err := it.GetWithIndex(absent)
+	vAssert(err == nil && val == nil && idx == int64(gap), "c11d:absent-rank")
+	vAssert(db.reads-r0 <= 2*hgt+2, "c11d:reads-get-absent<=2h+2")
+	r0 = db.reads
+	has, err := it.Has(absent)
+	vAssert(err == nil && !has, "c11d:has-absent")
+	vAssert(db.reads-r0 <= 2*hgt+2, "c11d:reads-has-absent<=2h+2")
+	r0 = db.reads
+	p, err := it.GetProof(absent)
+	vAssert(err == nil && p != nil && p.GetNonexist() != nil, "c11d:nonmembership-proof")
+	vAssert(db.reads-r0 <= 10*hgt+10, "c11d:reads-nonmembership-proof<=10h+10")
+	vCover("deep-tree")
+}
